@@ -104,6 +104,9 @@ pub fn search(pid: &str, seed: u64, budget_s: u64, out: &str) {
         "C17" => c17(&mut s, &mut rng),
         "C14" => c14(&mut s, &mut rng),
         "C12" => c12(&mut s, &mut rng),
+        "C09" => c09(&mut s, &mut rng),
+        "C10" => c10(&mut s, &mut rng),
+        "C11" => c11(&mut s, &mut rng),
         "C03" => c03(&mut s, &mut rng),
         "C01" => c01(&mut s, &mut rng),
         "C02" => c02(&mut s, &mut rng),
@@ -300,8 +303,81 @@ fn scripted_for(pid: &str, rng: &mut Rng) -> String {
     base
 }
 
+fn cli_tail(rng: &mut Rng) -> String {
+    // `cli run - <rest>` -> `<rest>`
+    let r = crate::gen::gen_cli_req(rng, "-");
+    r.splitn(4, ' ').nth(3).unwrap_or("").to_string()
+}
+
+fn c09(s: &mut Search, rng: &mut Rng) {
+    let mut n = 0u64;
+    while s.time_left() && n < 100_000 {
+        n += 1;
+        if n % 3 == 0 {
+            let req = format!("oracle c09_threads {}", cli_tail(rng));
+            s.class("cli-thread-sweep");
+            s.run("Determinism.threads", &req, "c09_threads", "CLI output depends on the number of worker threads / the run", true);
+        } else {
+            let k = 2 + rng.usize(4);
+            let mut req = format!("oracle c09_pool {}", *rng.pick(&[1usize, 2, 4, 8, 16]));
+            for _ in 0..k {
+                req.push_str(&format!(" {} crystal {} ;", crate::gen::gen_cfg_small(rng), crate::gen::gen_state_desc(rng, true)));
+            }
+            s.class("library-pool");
+            s.run("Determinism.pool", &req, "c09_pool", "an optimisation result depends on concurrently running replicas", true);
+        }
+    }
+}
+
+fn c10(s: &mut Search, rng: &mut Rng) {
+    let mut n = 0u64;
+    while s.time_left() && n < 100_000 {
+        n += 1;
+        let req = format!("oracle cli_check C10 {} {}", 1 + rng.below(3), cli_tail(rng));
+        s.class("cli");
+        s.run("Cli.bestReplica", &req, "c10_cli", "the written structure is not the best replica / is mislabelled", true);
+    }
+}
+
+fn c11(s: &mut Search, rng: &mut Rng) {
+    let mut n = 0u64;
+    while s.time_left() && n < 2_000_000 {
+        n += 1;
+        match n % 20 {
+            0 => {
+                let req = format!("oracle cli_check C11 0 {}", cli_tail(rng));
+                s.class("cli-files");
+                s.run("Json.roundTrip", &req, "c11_cli", "the written files are not faithful", true);
+            }
+            1..=9 => {
+                let dense = rng.chance(1, 2);
+                let req = format!("oracle c11_svg {}", crate::gen::gen_state_desc(rng, dense));
+                s.class("svg");
+                s.run("Svg.semantics", &req, "c11_svg", "the SVG does not show the structure", true);
+            }
+            _ => {
+                let dense = rng.chance(1, 2);
+                let req = format!("oracle c11_roundtrip {}", crate::gen::gen_state_desc(rng, dense));
+                s.class("json");
+                s.run("Json.roundTrip", &req, "c11_roundtrip", "JSON round trip changes the state", true);
+            }
+        }
+    }
+}
+
 fn opt_search(pid: &str, s: &mut Search, rng: &mut Rng) {
     let mut n = 0u64;
+    if pid == "C20" {
+        // the CLI clause: exit status 0 with both files, or an error message and non-zero status
+        for _ in 0..12 {
+            if !s.time_left() {
+                break;
+            }
+            let req = format!("oracle cli_check C20 0 {}", cli_tail(rng));
+            s.class("cli");
+            s.run("Cli.outcome", &req, "c20_cli", "the CLI ended with a panic or an inconsistent status", true);
+        }
+    }
     // C08: initial states of every group x shape family first
     if pid == "C08" {
         for g in crate::gen::GROUPS.iter() {
